@@ -173,6 +173,7 @@ def run(ctx):
     ctx.rule("R14.3", "getenv reachable from a main() only with the literal name SOURCE_DATE_EPOCH")
     ctx.rule("R14.4", "no locale is installed in any function reachable from a main()")
     ctx.rule("R14.6", "every scalar data member (integer, enum, bool, floating, pointer) of a class of the parser, the generators or the database is given a value on every path through every constructor (mem-initialiser, default member initialiser, or assignments that cover all paths): no output can depend on indeterminate memory")
+    ctx.rule("R14.7", "the constant evaluator never turns the address of a parser object into a value: CPPExpression::Result(void *) is constructed only from nullptr or from another result's as_pointer(); as_integer() of such a value would record (part of) a heap address")
     ctx.rule("R14.5a", "no pointer value is printed by a function that can write an output file")
     ctx.rule("R14.5b", "no unordered container keyed by a pointer is iterated")
     ctx.rule("R14.5c", "every traversal of an address-ordered container is order-insensitive or re-sorted by a total address-free comparator")
@@ -352,6 +353,7 @@ def run(ctx):
                 ctx.ob("R14.5d", "%s|std::sort|%s" % (f.name, cmpf["n"]), total, f.loc(c), "comparator %s %s" % (cmpf["n"], why))
     ctx.floor("R14.5d", "std::sort calls with a named comparator", n_sorts, 1)
     definite_initialisation(ctx)
+    no_address_results(ctx)
 
 def _enclosing_case(db, f, node):
     """Names of the case labels of the innermost switch arm containing node (a stable site context)."""
@@ -633,4 +635,24 @@ def definite_initialisation(ctx):
                            "%s %s::%s is %s" % (fl.get("t"), name, fl["n"], "assigned only on some paths through this constructor" if blocks else "not given a value by this constructor"))
     ctx.ob("R14.6", "all-constructors", True, "src", "%d (constructor, scalar member) pairs examined" % n)
     ctx.floor("R14.6", "(constructor, scalar member) pairs", n, 200)
+
+
+
+
+def no_address_results(ctx):
+    """R14.7: Result has a non-explicit Result(void *) and no Result(bool), so `Result(x->as_enum_type())` compiles and
+    stores a heap address; Result::as_integer() then yields its low 32 bits, which end up as an enumerator value."""
+    db = ctx.db
+    n = 0
+    for f in db.functions:
+        if not any(d in f.file for d in ("/cppparser/", "/interrogate/")):
+            continue
+        for c in f.walk():
+            if c.get("k") == "ctor" and c.get("f") == "CPPExpression::Result::Result" and "void *" in (c.get("s") or ""):
+                n += 1
+                a = strip_casts(c["a"][0]) if c.get("a") else None
+                ok = a is not None and (a.get("k") == "nullp" or (a.get("k") == "call" and a.get("f") == "CPPExpression::Result::as_pointer"))
+                ctx.ob("R14.7", "%s|Result(void*)|%s" % (f.name, "propagated" if ok else show(a)[:40] if a is not None else "?"), ok, f.loc(c),
+                       "Result(void *) is built from %s" % ("nullptr / another result's pointer" if ok else "`%s`: the address of an object" % show(a)[:50]))
+    ctx.floor("R14.7", "Result(void *) constructions", n, 2)
 
